@@ -61,6 +61,13 @@ CLAIMED.update({
    note="field extraction positions versus the ISA manuals are not compared; two genuine defects (dropped getOperand errors, unguarded buf[:4]) found and repaired by a fix: commit"),
 })
 
+CLAIMED.update({
+ "C07": dict(
+   text="Aliasing shapes of the register stores decided statically in all five accessors of both modes: half-register merges keep exactly the other half (mask == ^(0xffffffff << shift)) and use the shift of their LO/HI context, half reads use the same shift, the (register kind, count) coverage of the accessors is evaluated as decision tables and compared as siblings against the set of special registers the decoder produces, vector-register strides of emulation equal those of the timing register file and its builder constants, the multi-register width rule is uniform, and register release clears only the wavefront's own ranges. Read-after-write equality over all sequences is value level and not decided.",
+   ref="4/C07", technique="SSA pattern rules with dominance context (GUARD), decision-table evaluation of sibling accessors (SIBLINGS), constant agreement (TABLE), value provenance",
+   note="register index bounds and allocation offsets not decided; two defects (VCCHI mask, missing EXEC halves) found and repaired by fix: commits"),
+})
+
 PENDING = {}
 
 NOT_APPLICABLE = {
